@@ -5,8 +5,10 @@ use serde_json::Value;
 use vcore::{Fail, Report};
 
 mod c07;
+mod c07_fuzz;
 mod c22;
 mod c23;
+mod c28;
 mod c32;
 mod lspenv;
 mod parse;
@@ -17,6 +19,7 @@ fn main() {
         "C07" => c07::run(&args),
         "C22" => c22::run(&args),
         "C23" => c23::run(&args),
+        "C28" => c28::run(&args),
         "C32" => c32::run(&args),
         other => vcore::inconclusive(&format!("isolit: unknown property {other}")),
     }
